@@ -38,7 +38,7 @@ def run(tier, seed):
         R.violation('tie-build-failed', 'could not build model or Rust harness',
                     {'no_failing_input_found': True, 'theorem_or_correspondence': 'build', 'model_log': tie.model_log, 'rust_log': tie.rust_log})
         return R.finish(trusted_base=C.TRUSTED_COMMON)
-    n = 12000 if quick else 300000
+    n = 24000 if quick else 1500000
     lines, labels, meta = [], [], []
     pats = []
     for i in range(n):
